@@ -126,9 +126,9 @@ func UploadPack(
 			wants = upreq.Wants
 			caps = upreq.Capabilities
 
-			if err := r.Close(); err != nil {
-				return fmt.Errorf("closing reader: %w", err)
-			}
+			// The reader is closed once, after the negotiation loop: over smart
+			// HTTP it is the request body, and net/http discards what is left of a
+			// body that is closed -- the haves that follow the upload-request.
 
 			// Find common commits/objects
 			havesWithRef, err = revlist.ObjectsWithRef(st, wants, nil)
@@ -171,10 +171,6 @@ func UploadPack(
 		var uphav packp.UploadHaves
 		if err := uphav.Decode(rd); err != nil {
 			return fmt.Errorf("decoding upload-haves: %w", err)
-		}
-
-		if err := r.Close(); err != nil {
-			return fmt.Errorf("closing reader: %w", err)
 		}
 
 		haves = append(haves, uphav.Haves...)
